@@ -377,9 +377,9 @@ pub fn cmd_strategy() -> BoxedStrategy<(Cmd, Rel)> {
             // run in a non-default environment, a seventh compare two environments)
             let e = (spell >> 40) as u8;
             if spell != 0 && e % 3 == 0 {
-                cmd.env_profile = (spell >> 48) as u8 & 31;
+                cmd.env_profile = (spell >> 48) as u8 & 127;
             }
-            let rel = if spell != 0 && e % 7 == 0 { Rel::Env(((spell >> 56) as u8 & 31) | 4) } else { rel };
+            let rel = if spell != 0 && e % 7 == 0 { Rel::Env(((spell >> 56) as u8 & 127) | 4) } else { rel };
             if omit {
                 cmd.omit_defaults = true;
                 let d = Cmd::base(cmd.sub);
